@@ -892,11 +892,14 @@ func ruleBase10(c *Ctx) {
 	}
 	// ... which reads plain decimal: folded on probe spellings, the value is the decimal value (zero padding changes
 	// nothing) and anything but a string of ASCII digits is an error
-	probes := []string{"0", "1", "7", "9", "10", "12", "100", "120", "960", "010", "0100", "007", "00", "000", "0012300", "1000000", "4294967296",
+	probes := []string{"0", "1", "7", "9", "10", "12", "100", "120", "960", "010", "0100", "007", "00", "000", "0012300", "1000000", "4294967296", "000000000000000000004", "0000000000000000000000000120", "-120", "-0", "+120",
 		"", " ", "x", "1x", "x1", "-1", "+1", " 1", "1 ", "0x10", "0b1", "0o7", "1_0", "1.0", "1e3", "1/2", "\u0663", "\uff11"}
 	problem, folded := "", 0
 	for _, sp := range probes {
 		r, err := c.newFolder().foldCall(pu, []fval{{k: constant.MakeString(sp), t: types.Typ[types.String]}})
+		if err == nil && len(r.tuple) == 2 && !r.tuple[1].isNil && (r.tuple[1].addr != nil || r.tuple[1].cvptr != nil) {
+			r.tuple[1].nonNil = true // an error value built on the spot (&strconv.NumError{...})
+		}
 		if err != nil || len(r.tuple) != 2 || !(r.tuple[1].isNil || r.tuple[1].nonNil) {
 			continue
 		}
